@@ -20,13 +20,24 @@ LT = {"fixed": FixedLifetime, "normal": NormalLifetime, "folded": FoldedNormalLi
 CLS = {"simple": SimpleFlowDrivenStock, "inflow": InflowDrivenDSM, "stockdriven": StockDrivenDSM}
 NAMING = {"arrow": process_names_with_arrow, "no_spaces": process_names_no_spaces, "ids": process_ids}
 DIMNAMES = {"t": "Technology", "a": "Alpha", "b": "Beta Region", "c": "Gamma", "e": "Element"}
-PROC_POOL = ["use", " sorting", "use phase", "waste mgmt.", "re-use (2)", "Fab/rication", "shredder & sorter", "Recycling -> out", "end of life", "market", "waste outflow"]
+PROC_POOL = ["use", " sorting", "use phase", "waste mgmt.", "re-use (2)", "Fab/rication", "shredder & sorter", "Recycling -> out", "end of life", "market", "waste outflow", "phase market"]
 STOCK_NAMES = ["in use", "landfill (old) ", "obsolete-stock", "hibernating"]
 PARAM_NAMES = ["yield", "split share", " lifetime mean", "demand"]
 
 
+def ref_file_name(value):
+    """the documented sanitising of names into file names, written down here once more so that the worlds (and the notion of
+    'names that stay distinct after sanitising') do not depend on the code under test: ASCII, lower case, everything but word
+    characters, blanks and dashes removed, every blank or dash turned into one underscore, underscores and dashes stripped at the ends"""
+    import re
+    import unicodedata
+    value = unicodedata.normalize("NFKD", str(value)).encode("ascii", "ignore").decode("ascii")
+    value = re.sub(r"[^\w\s-]", "", value.lower())
+    return re.sub(r"[-\s]", "_", value).strip("-_")
+
+
 def _sanitised_distinct(names):
-    s = [to_valid_file_name(n) for n in names]
+    s = [ref_file_name(n) for n in names]
     return len(set(s)) == len(s) and all(s)
 
 
@@ -72,6 +83,19 @@ def gen_sysworld(rng, small=False):
     nf = rng.randint(1, 4 if small else 8)
     naming = rng.choice(list(NAMING))
     flows, seen_names = [], []
+    if rng.chance(0.05 if small else 0.08):
+        # names that differ only in where the separators sit: "use phase => market" / "use => phase market" stay distinct after
+        # sanitising (use_phase__market / use__phase_market) - as long as runs of separators are not collapsed
+        naming = "arrow"
+        for nm in ("use", "use phase", "phase market", "market"):
+            if nm not in procs:
+                procs.append(nm)
+        npr = len(procs) - 1
+        for a_, b_ in (("use phase", "market"), ("use", "phase market")):
+            i, j = procs.index(a_), procs.index(b_)
+            seen_names.append(NAMING["arrow"](_P(a_, i), _P(b_, j)))
+            flows.append({"from": i, "to": j, "dims": rng.subset(letters, 0, len(letters)), "override": None})
+        nf = max(nf, 2)
     tries = 0
     while len(flows) < nf and tries < 60:
         tries += 1
@@ -137,7 +161,7 @@ def _dim(world, letter):
     return [d for d in world["dims"] if d["letter"] == letter][0]
 
 
-DT = {"int": int, "str": str, "float": float}
+DT = {"int": int, "str": str, "float": float, "mixed": None}
 
 
 # ============================================================================= definitions
@@ -145,7 +169,7 @@ def make_definition(world, faults=()):
     """returns MFADefinition (construction itself may raise: that is one of the places where refusal may happen)"""
     fl = {f["kind"]: f for f in faults}
     alias = world.get("alias", 0)
-    dim_defs = [DimensionDefinition(name=d["name"], dtype=DT[d["dtype"]], **{("dim_letter" if (alias + n) % 2 else "letter"): d["letter"]})
+    dim_defs = [DimensionDefinition(name=d["name"], dtype=DT[d["dtype"]] or str, **{("dim_letter" if (alias + n) % 2 else "letter"): d["letter"]})
                 for n, d in enumerate(world["dims"])]
     procs = list(world["processes"])
     if "sysenv_not_first" in fl and len(procs) > 1:
